@@ -67,6 +67,11 @@ func (c *RecConnSF) Sendfile(f *os.File, remain int64) (int64, error) {
 		return 0, nil
 	}
 	c.Attempts++
+	if c.T != nil {
+		c.T.mu.Lock()
+		c.T.ev("wf")
+		c.T.mu.Unlock()
+	}
 	if c.FailAt > 0 && c.Attempts >= c.FailAt {
 		return 0, ErrInjected
 	}
@@ -84,11 +89,6 @@ func (c *RecConnSF) Sendfile(f *os.File, remain int64) (int64, error) {
 	b := make([]byte, remain)
 	if _, err := f.ReadAt(b, off); err != nil && err != io.EOF {
 		return 0, err
-	}
-	if c.T != nil {
-		c.T.mu.Lock()
-		c.T.ev("wf")
-		c.T.mu.Unlock()
 	}
 	c.Writes = append(c.Writes, b)
 	c.Kinds = append(c.Kinds, 'f')
